@@ -1,75 +1,1 @@
 package subs
-
-import (
-	"context"
-	"fmt"
-	"os"
-	"testing"
-	"testing/synctest"
-	"time"
-
-	"github.com/NethermindEth/juno/core"
-
-	"verifharness/internal/chainkit"
-)
-
-// TestSubsSmoke is a development aid (VERIF_SUBS_SMOKE=1): the plumbing on one tiny scenario.
-func TestSubsSmoke(t *testing.T) {
-	if os.Getenv("VERIF_SUBS_SMOKE") == "" {
-		t.Skip("development aid")
-	}
-	synctest.Test(t, func(t *testing.T) {
-		s, err := newSUT(false)
-		if err != nil {
-			t.Fatal(err)
-		}
-		defer s.stop()
-		store := func() *chainkit.Built {
-			b, err := s.node.Append(chainkit.BlockSpec{Version: "0.14.0", Timestamp: uint64(time.Now().Unix())})
-			if err != nil {
-				t.Fatal(err)
-			}
-			return b
-		}
-		for i := 0; i < 3; i++ {
-			store()
-		}
-		c := s.newConn()
-		for _, v := range versions {
-			resp, err := c.call(v, "starknet_subscribeNewHeads", map[string]any{"block_id": map[string]any{"block_number": 1}})
-			fmt.Println(v, "subscribe:", resp, err)
-			id := fmt.Sprint(resp["result"])
-			synctest.Wait()
-			for k := 0; k < 2; k++ {
-				fr, ok := c.take(id)
-				fmt.Println(v, "frame", ok, brief(fr))
-				synctest.Wait()
-			}
-			b := store()
-			s.heads.Send(b.Block)
-			synctest.Wait()
-			fr, ok := c.take(id)
-			fmt.Println(v, "live frame", ok, brief(fr))
-			synctest.Wait()
-			_, ok = c.take(id)
-			fmt.Println(v, "no more:", !ok, "registered:", s.registered(v))
-			if err := s.node.BC.SetL1Head(&core.L1Head{BlockNumber: 1, BlockHash: b.Block.Hash, StateRoot: b.Block.GlobalStateRoot}); err != nil {
-				t.Fatal(err)
-			}
-			resp, err = c.call(v, "starknet_unsubscribe", map[string]any{"subscription_id": id})
-			fmt.Println(v, "unsubscribe:", resp, err, "registered:", s.registered(v))
-		}
-		c.close()
-		synctest.Wait()
-		_ = context.Background
-	})
-}
-
-func brief(m map[string]any) string {
-	if m == nil {
-		return "<nil>"
-	}
-	p, _ := m["params"].(map[string]any)
-	r, _ := p["result"].(map[string]any)
-	return fmt.Sprintf("%v %v #%v", m["method"], p["subscription_id"], r["block_number"])
-}
